@@ -8,7 +8,7 @@ EmitHeader ==
         PrintT(ToJson([header |-> TRUE, radii2 |-> Radii2,
                        labels |-> << [u |-> <<0, 3, 1, 4, 2, 6>>, s |-> <<1, 0, 4, 2, 5, 3>>],
                                      [u |-> <<2, 2, 0, 5, 1, 1>>, s |-> <<0, 3, 3, 1, 6, 2>>] >>,
-                       dv2 |-> {7, 13, 20001}, bal2 |-> {1, 7}]))
+                       dv2 |-> {7, 13, 20001}, bal2 |-> {1, 7, 11}]))
 EmitClouds == Ready => PrintT(ToJson([pu |-> pu, ps |-> ps]))
 EmitBig == (Ready /\ Len(pu) + Len(ps) >= 6) => PrintT(ToJson([pu |-> pu, ps |-> ps]))
 =============================================================================
